@@ -10,7 +10,14 @@ impl ValidationContext {
         match node {
             Node::Divert(d) => self.check_divert(d)?,
             Node::TunnelDivert { target, .. } => self.check_target(target)?,
-            Node::ThreadDivert(d) => self.check_divert(d)?,
+            Node::ThreadDivert(d) => {
+                if d.target.is_empty() {
+                    return Err(CompilerError::invalid_source(
+                        "A thread needs a target: '<- target'".to_owned(),
+                    ));
+                }
+                self.check_divert(d)?
+            }
             Node::Choice(c) => {
                 for n in &c.body {
                     self.validate_node_divert(n)?;
@@ -48,10 +55,6 @@ impl ValidationContext {
     fn check_target(&self, target: &str) -> Result<(), CompilerError> {
         // Variable diverts (VAR? targets) can't be checked statically
         if target.is_empty() || target == "->" {
-            return Ok(());
-        }
-        // Targets starting with '$' are internal compiler-generated
-        if target.starts_with('$') {
             return Ok(());
         }
         if self.function_names.contains(target) {
